@@ -71,6 +71,18 @@ def rules_family(rng, n):
         data, nodes, lits = S.gen_typed_data(rng, n_iri=rng.randint(3, 5), n_bn=0, n_lit=1, n_triples=rng.randint(4, 10))
         ttl = RULES_TTL % {"csev": rng.choice(sevs), "csev2": rng.choice(sevs), "psev": rng.choice(sevs), "rsev": rng.choice(sevs), "vsev": rng.choice(sevs),
                            "second": rng.choice(["", "", ", ex:Cond2"]), "vmin": rng.choice([1, 1, 3])}
+        if _ % 3 == 0:
+            # a run whose results are all of waivable severity, after an odd or even number of condition evaluations (1-4 instances of the
+            # rule shape's class, all of which meet the condition): what the rules did to decide must leave the waiver as the caller set it
+            from rdflib import RDF as _RDF
+            for x_ in [n_ for n_ in nodes if not isinstance(n_, rdflib.Literal)]:
+                data.remove((x_, _RDF.type, None))
+            for x_ in rng.sample([n_ for n_ in nodes if isinstance(n_, rdflib.URIRef)], rng.randint(1, min(4, len([n_ for n_ in nodes if isinstance(n_, rdflib.URIRef)])))):
+                data.add((x_, _RDF.type, S.CLASSES[0]))
+                data.add((x_, _RDF.type, S.CLASSES[1]))
+            wsev = rng.choice(["sh:severity sh:Info ;", "sh:severity sh:Warning ;"])
+            ttl = (RULES_TTL % {"csev": rng.choice(sevs), "csev2": "", "psev": "", "rsev": rng.choice(sevs), "vsev": wsev, "second": "", "vmin": rng.choice([1, 3])}) \
+                .replace("sh:property [ sh:path ex:q ;", "sh:property [ %s sh:path ex:q ;" % wsev).replace("sh:property [ sh:path ex:marked ;", "sh:property [ sh:severity sh:Warning ; sh:path ex:marked ;")
         sg = rdflib.Graph().parse(data=ttl, format="turtle")
         grp = [S.run_validate(data, sg, advanced=True, **o) for o in OPTS]
         stats["rule_condition_cases"] += 1
